@@ -134,7 +134,10 @@ class CACGMM(_ProbabilisticModel):
 
         # first: sum above the speakers
         # second: sum above time frequency in log domain
-        log_likelihood = np.sum(scipy.special.logsumexp(log_pdf, axis=-2))
+        # The mixture weights are broadcast compatible with log_pdf.
+        log_likelihood = np.sum(
+            scipy.special.logsumexp(log_pdf, axis=-2, b=self.weight)
+        )
         return log_likelihood
 
 
